@@ -84,6 +84,7 @@ func NewSolver(kind string, timeoutMs int) (*Solver, error) {
 	if s.kind == "cvc5" {
 		s.send("(set-logic ALL)\n")
 	}
+	s.flush()
 	return s, nil
 }
 
